@@ -3,7 +3,7 @@ import gen_tables, gen_funcs, gen_consts
 
 
 def generate_all(snap):
-    out = {"tables": gen_tables.generate(snap), "prng": gen_funcs.gen_prng(snap), "blocking": gen_funcs.gen_blocking(snap), "consts": gen_consts.generate(snap)}
+    out = {"tables": gen_tables.generate(snap), "prng": gen_funcs.gen_prng(snap), "blocking": gen_funcs.gen_blocking(snap), "consts": gen_consts.generate(snap), "popcount": gen_funcs.gen_popcount(snap)}
     return out
 
 
